@@ -469,6 +469,17 @@ impl WalRecord {
     }
 }
 
+#[cfg(nervusdb_verif)]
+impl WalRecord {
+    pub fn verif_encode(&self) -> Result<Vec<u8>> {
+        self.encode_body()
+    }
+
+    pub fn verif_decode(body: &[u8]) -> Result<Self> {
+        Self::decode_body(body)
+    }
+}
+
 #[derive(Debug)]
 pub struct Wal {
     path: PathBuf,
@@ -505,8 +516,32 @@ impl Wal {
 
         let offset = file.metadata()?.len();
         file.seek(SeekFrom::End(0))?;
+        #[cfg(nervusdb_verif)]
+        crate::verif::io_file(
+            "wal.append.len",
+            crate::verif::IoOp::Append,
+            file,
+            offset,
+            &len.to_le_bytes(),
+        )?;
         file.write_all(&len.to_le_bytes())?;
+        #[cfg(nervusdb_verif)]
+        crate::verif::io_file(
+            "wal.append.crc",
+            crate::verif::IoOp::Append,
+            file,
+            offset + 4,
+            &crc.to_le_bytes(),
+        )?;
         file.write_all(&crc.to_le_bytes())?;
+        #[cfg(nervusdb_verif)]
+        crate::verif::io_file(
+            "wal.append.body",
+            crate::verif::IoOp::Append,
+            file,
+            offset + 8,
+            &body,
+        )?;
         file.write_all(&body)?;
         file.flush()?;
         Ok(offset)
@@ -516,6 +551,8 @@ impl Wal {
         let Some(file) = self.file.as_mut() else {
             return Err(Error::WalProtocol("wal file is closed"));
         };
+        #[cfg(nervusdb_verif)]
+        crate::verif::io_file("wal.fsync", crate::verif::IoOp::Sync, file, 0, &[])?;
         file.sync_data()?;
         Ok(())
     }
@@ -530,6 +567,8 @@ impl Wal {
         };
 
         {
+            #[cfg(nervusdb_verif)]
+            crate::verif::io_path("wal.rewrite.create", crate::verif::IoOp::Create, &tmp, None)?;
             let mut tmp_file = OpenOptions::new()
                 .write(true)
                 .create_new(true)
@@ -541,8 +580,32 @@ impl Wal {
                 let len =
                     u32::try_from(body.len()).map_err(|_| Error::WalRecordTooLarge(u32::MAX))?;
                 let crc = crc32(&body);
+                #[cfg(nervusdb_verif)]
+                crate::verif::io_file(
+                    "wal.rewrite.len",
+                    crate::verif::IoOp::Append,
+                    file,
+                    0,
+                    &len.to_le_bytes(),
+                )?;
                 file.write_all(&len.to_le_bytes())?;
+                #[cfg(nervusdb_verif)]
+                crate::verif::io_file(
+                    "wal.rewrite.crc",
+                    crate::verif::IoOp::Append,
+                    file,
+                    0,
+                    &crc.to_le_bytes(),
+                )?;
                 file.write_all(&crc.to_le_bytes())?;
+                #[cfg(nervusdb_verif)]
+                crate::verif::io_file(
+                    "wal.rewrite.body",
+                    crate::verif::IoOp::Append,
+                    file,
+                    0,
+                    &body,
+                )?;
                 file.write_all(&body)?;
                 Ok(())
             }
@@ -553,10 +616,25 @@ impl Wal {
             }
             append_to(&mut tmp_file, &WalRecord::CommitTx { txid })?;
             tmp_file.flush()?;
+            #[cfg(nervusdb_verif)]
+            crate::verif::io_file(
+                "wal.rewrite.sync",
+                crate::verif::IoOp::Sync,
+                &tmp_file,
+                0,
+                &[],
+            )?;
             tmp_file.sync_data()?;
         }
 
         // Best-effort replace (POSIX: rename overwrites; Windows: needs remove first).
+        #[cfg(nervusdb_verif)]
+        crate::verif::io_path(
+            "wal.rewrite.rename",
+            crate::verif::IoOp::Rename,
+            &tmp,
+            Some(&self.path),
+        )?;
         if std::fs::rename(&tmp, &self.path).is_err() {
             if self.path.exists() {
                 std::fs::remove_file(&self.path)?;
